@@ -132,6 +132,9 @@ def corpus_cases(start):
             structs.append(S("Leaf", [E("Top"), F("Open", "bool")]))
         cf = histgen.HFile("chain.go", structs)
         cs_ = histgen.Pkg("new", "p", [cf], ["-getset"] + (["-json"] if extra else []))
+        # the first chain is driven with the ABSOLUTE package directory as [dir] (the overlay of a freshly generated file must
+        # still be found by the reload), the second from inside the package directory
+        cs_.dirarg = "abs" if not extra else False
         sel = [s.name for s in structs]
         res.append(Case(start + 2 + k, cs_, cs_.cmd_file("chain.go"), cs_.cmd_file("chain.go", sep=True), sel,
                         [cs_.cmd_types(sel), cs_.cmd_types(list(reversed(sel)))]))
@@ -224,7 +227,9 @@ def execute_case(run, shoot, case):
         return Site(root / ("s%02d" % k[0]), spec, files)
 
     def one(cmd, site):
-        r = run_cmd(shoot, site, cmd, cwd=site.root if spec.dirarg else None)
+        args = [a.replace("@ROOT", str(site.root)) for a in cmd.argv()] if spec.dirarg == "abs" else None
+        r = run_cmd(shoot, site, cmd, cwd=site.root if spec.dirarg else None, args=args)
+        r["root"] = str(site.root)
         r["paths"] = [str(site.pkgdir / n) for n in r["written"]]
         return r
     obs = {}
@@ -256,6 +261,9 @@ def attach_sigs(cases, astsig):
         for rs in c.obs.values():
             for r in rs:
                 r["files"] = sorted((observe_file(p, sigs[p]) for p in r["paths"]), key=lambda f: f["name"].encode())
+                for f in r["files"]:
+                    # the header quotes the command line: an absolute [dir] is compared up to the module root of the copy
+                    f["cmd"] = f["cmd"].replace(r.get("root", "\0"), "@ROOT")
 
 
 def coq_case(case):
